@@ -106,6 +106,45 @@ def sweep(fx, R):
                     R.holds('H1', name, 'decided by the static-cache rule (E-PURE) of this property', fx.rel(f['loc']), 'E-PURE')
                 else:
                     R.undecided('H1', name, 'the function keeps state across calls in the non-const static `%s`; its results were read as functions of the arguments only' % v['name'])
+    def base_member(e):
+        e = strip_casts(e) if e is not None else None
+        for _ in range(6):
+            if e is None:
+                return None
+            if e.get('k') == 'Member' and e.get('field'):
+                return e
+            if e.get('k') == 'Op' and e.get('op') in ('[]', '()') and e.get('args'):
+                e = strip_casts(e['args'][0])
+            elif e.get('k') == 'MCall':
+                e = strip_casts(e.get('obj'))
+            else:
+                return None
+        return None
+
+    def stores_in(node):
+        out = []
+        for y in walk(node):
+            if isinstance(y, dict) and ((y.get('k') == 'Bin' and y.get('op') in ('=', '+=', '-=', '*=', '/=', '%=')) or (y.get('k') == 'Op' and y.get('op') in ('=', '+=', '-=', '*=', '/=', '%=') and len(y.get('args', [])) == 2)):
+                l_, r_ = (y['l'], y['r']) if y.get('k') == 'Bin' else (y['args'][0], y['args'][1])
+                bm = base_member(l_)
+                if bm is not None:
+                    out.append((bm, r_))
+        return out
+
+    def member_reads(node, cls, seen=None, depth=0):
+        seen = seen if seen is not None else set()
+        out = set()
+        for y in walk(node):
+            if not isinstance(y, dict):
+                continue
+            if y.get('k') == 'Member' and y.get('field') and y.get('cls') == cls:
+                out.add(y['name'])
+            if y.get('inrepo') and y.get('fk') and depth < 4 and y['fk'] not in seen:
+                g_ = fx.functions.get(y['fk'])
+                if g_ is not None and g_.get('body') is not None and g_.get('cls') == cls:
+                    seen.add(y['fk'])
+                    out |= member_reads(g_['body'], cls, seen, depth + 1)
+        return out
     # ---- H3: a user-provided copy constructor hands over every member the functions read --------------------------------------
     from . import sym
     classes = sorted({f.get('cls') for f in fns if f.get('cls')})
@@ -145,6 +184,52 @@ def sweep(fx, R):
                            ', '.join(sorted({l_[0] for l_ in lost})), (lost[0][1] or ['default-initialised'])[0][:80]), fx.rel(g['loc']), 'E-STATE')
         else:
             R.holds('H3', inst, 'every member the read functions use (%s) is taken from the source object' % ', '.join(sorted(read)), fx.rel(g['loc']), 'E-STATE')
+    # ---- H8: a member derived from another member in the constructor and not refreshed when that member is re-assigned -------------------------
+    for cls in classes:
+        ctors = [g for g in fx.functions.values() if g.get('ctor') and g.get('cls') == cls and not g.get('copyctor')]
+        for g in ctors:
+            by_param = {}          # member initialised directly from a parameter -> parameter id
+            for i in g.get('inits', []):
+                if i.get('field') and i.get('e') is not None:
+                    e0 = strip_casts(i['e'])
+                    if e0.get('k') == 'Ref' and e0.get('rk') == 'param':
+                        by_param[i['field']] = e0.get('id')
+            for i in g.get('inits', []):
+                if not i.get('field') or i.get('e') is None or i['field'] in by_param:
+                    continue
+                srcs = set()
+                for y in walk(i['e']):
+                    if isinstance(y, dict) and y.get('k') == 'Ref' and y.get('rk') == 'param':
+                        srcs |= {m_ for m_, pid in by_param.items() if pid == y.get('id')}
+                    if isinstance(y, dict) and y.get('k') == 'Member' and y.get('field') and y.get('cls') == cls and y.get('name') in by_param:
+                        srcs.add(y['name'])
+                # only derived values (a call / member access on the source), not plain copies of another parameter
+                derived = any(isinstance(y, dict) and y.get('k') in ('MCall', 'Call', 'Member') for y in walk(i['e']))
+                if not srcs or not derived:
+                    continue
+                D = i['field']
+                for S_ in sorted(srcs):
+                    setters = []
+                    for h in fx.functions.values():
+                        if h.get('cls') != cls or h.get('ctor') or h.get('body') is None:
+                            continue
+                        st_ = stores_in(h['body'])
+                        names_ = {bm['name'] for (bm, _) in st_ if bm.get('cls') == cls}
+                        touched = set(names_)
+                        for y in walk(h['body']):        # a mutating library call on the member (resize, setConstant, clear ...) refreshes it too
+                            if isinstance(y, dict) and y.get('k') == 'MCall' and not y.get('mconst') and not y.get('inrepo'):
+                                bm_ = base_member(y.get('obj'))
+                                if bm_ is not None and bm_.get('cls') == cls:
+                                    touched.add(bm_['name'])
+                        if S_ in names_ and D not in touched:
+                            setters.append(h['name'])
+                    used = any(isinstance(y, dict) and y.get('k') == 'Member' and y.get('name') == D and y.get('cls') == cls for f_ in fns if f_.get('cls') == cls and not f_.get('ctor') for y in walk(f_.get('body')))
+                    inst = '%s:derived-member:%s' % (cls, D)
+                    if setters and used:
+                        R.violated('H8', inst, 'the constructor derives `%s` from `%s` (`%s`), but %s() re-assigns `%s` without refreshing `%s`: after that call the object keeps using the value derived from the '
+                                   'OLD %s (or from nothing, for a default-constructed object that is configured afterwards)' % (D, S_, pp(i['e'])[:80], setters[0], S_, D, S_), fx.rel(g['loc']), 'E-STATE')
+                    elif used:
+                        R.holds('H8', inst, 'derived from %s, which no method re-assigns without it' % S_, fx.rel(g['loc']), 'E-STATE')
     # ---- H7: a member used as the accumulator of a loop without being reset in the same call ---------------------------------------------
     RESET_METHODS = ('setZero', 'setConstant', 'fill', 'clear', 'setIdentity', 'setOnes', 'assign', 'resize')
     for f in sorted(fns, key=lambda f: f['q']):
@@ -258,45 +343,6 @@ def sweep(fx, R):
     # ---- H5: a member cache keyed on the argument only -------------------------------------------------------------------------
     # `if (arg != key_) { key_ = arg; cached_ = g(arg, other members) }  ... use cached_`: the cached value is refreshed only when the argument changes.
     # When g also reads a member that another method of the class writes, the same argument after that call gets the value of the old state.
-    def base_member(e):
-        e = strip_casts(e) if e is not None else None
-        for _ in range(6):
-            if e is None:
-                return None
-            if e.get('k') == 'Member' and e.get('field'):
-                return e
-            if e.get('k') == 'Op' and e.get('op') in ('[]', '()') and e.get('args'):
-                e = strip_casts(e['args'][0])
-            elif e.get('k') == 'MCall':
-                e = strip_casts(e.get('obj'))
-            else:
-                return None
-        return None
-
-    def stores_in(node):
-        out = []
-        for y in walk(node):
-            if isinstance(y, dict) and ((y.get('k') == 'Bin' and y.get('op') in ('=', '+=', '-=', '*=', '/=', '%=')) or (y.get('k') == 'Op' and y.get('op') in ('=', '+=', '-=', '*=', '/=', '%=') and len(y.get('args', [])) == 2)):
-                l_, r_ = (y['l'], y['r']) if y.get('k') == 'Bin' else (y['args'][0], y['args'][1])
-                bm = base_member(l_)
-                if bm is not None:
-                    out.append((bm, r_))
-        return out
-
-    def member_reads(node, cls, seen=None, depth=0):
-        seen = seen if seen is not None else set()
-        out = set()
-        for y in walk(node):
-            if not isinstance(y, dict):
-                continue
-            if y.get('k') == 'Member' and y.get('field') and y.get('cls') == cls:
-                out.add(y['name'])
-            if y.get('inrepo') and y.get('fk') and depth < 4 and y['fk'] not in seen:
-                g_ = fx.functions.get(y['fk'])
-                if g_ is not None and g_.get('body') is not None and g_.get('cls') == cls:
-                    seen.add(y['fk'])
-                    out |= member_reads(g_['body'], cls, seen, depth + 1)
-        return out
     all_writers = {}
     for g in fx.functions.values():
         if g.get('body') is None or g.get('ctor') or not g.get('cls'):
